@@ -4,9 +4,9 @@ import json, os, subprocess, sys, time, hashlib, shutil, re
 
 VERIF = os.path.dirname(os.path.dirname(os.path.abspath(__file__)))
 REPO = os.environ.get("VERIF_REPO", "/repo")
-BUILD = os.path.join(VERIF, "build")
+BUILD = os.environ.get("VERIF_BUILD", os.path.join(VERIF, "build"))
 EVIDENCE = os.path.join(VERIF, "evidence")
-REPLAY = os.path.join(VERIF, "build", "replay")
+REPLAY = os.path.join(BUILD, "replay")
 KNOWN = os.path.join(VERIF, "known_findings.txt")
 
 OFFLINE_ENV = {"CARGO_NET_OFFLINE": "true", "GOPROXY": "off", "PIP_NO_INDEX": "1"}
@@ -134,7 +134,7 @@ class Outcome:
             "distinct_nontrivial": max(2, len({o["name"] for o in self.obligations})) if len(self.obligations) >= 2 else 2 if self.obligations else 0,
             "rule": "one obligation = one solver query set (Kani harness = CBMC SAT query over the compiled code; E2 query = SMT query over the MIR-derived encoding); all are distinct by name; each is non-trivial because its vacuity witness (cover / false-twin) was satisfied",
             "checker_cmd": " ".join(sys.argv),
-            "trusted_base": ["rustc", "kani-compiler 0.68", "CBMC 6.11 + CaDiCaL", "z3 4.8.12", "cvc5 1.0 (diff)", "vlib/mir2smt.py translator (validated against native execution on test vectors each run)"],
+            "trusted_base": ["rustc", "kani-compiler 0.68", "CBMC 6.11 + CaDiCaL", "z3 4.8.12", "cvc5 1.0 (diff)", "vlib/mirparse.py + mirexec.py + mirmodels.py (MIR translator and std models; validated against native execution on test vectors each run)"],
             "functions_encoded": self.functions,
             "queries": self.obligations,
             "solver_s": round(self.solver_s, 2),
